@@ -296,6 +296,39 @@ def gen_include_program(rnd, base):
     return apm.Program([apm.SrcFile("main.mac", main)], aux={"inc.mac": apm.SrcFile("inc.mac", inc)}), tags
 
 
+def gen_shadow_program(rnd, base):
+    """(D) two linked files; the later one has a private label with the name an earlier file exports, and branches / relative
+    operands that name it BEFORE its own definition: they mean the file's own label."""
+    from vlib import apm
+    tags = []
+    name = rnd.choice(["done", "loop", "exit9"])
+    lib = [apm.label("libtop", extern=True), apm.insn("nop"), apm.blk(".blkb", apm.num(2 * rnd.randrange(0, 20))), apm.label(name, extern=True), apm.insn("nop"),
+           apm.data(".word", ("sym", name))]
+    main = [apm.label("maintop"), apm.insn("nop")]
+    for _ in range(rnd.randrange(1, 5)):
+        form = rnd.choice(["br", "sob", "rel", "reld", "word"])
+        if form == "br":
+            main.append(apm.insn(rnd.choice(["br", "beq", "bne"]), ("br", ("sym", name)))); tags.append("shadow|branch-fwd")
+        elif form == "sob":
+            main.append(apm.insn("sob", ("reg", 1), ("br", ("sym", "maintop")))); tags.append("shadow|sob-back")
+        elif form == "rel":
+            main.append(apm.insn("mov", ("rel", ("sym", name)), ("reg", 2))); tags.append("shadow|rel-fwd")
+        elif form == "reld":
+            main.append(apm.insn("jmp", ("reld", ("sym", name)))); tags.append("shadow|reld-fwd")
+        else:
+            main.append(apm.data(".word", ("sym", "libtop")))
+    main += [apm.blk(".blkb", apm.num(2 * rnd.randrange(0, 30))), apm.label(name), apm.insn("nop"),
+             apm.insn("br", ("br", ("sym", name))), apm.insn("mov", ("rel", ("sym", name)), ("reg", 3))]
+    tags += ["shadow|branch-back", "shadow|rel-back"]
+    files = [apm.SrcFile("lib.mac", lib), apm.SrcFile("main.mac", main)]
+    site = rnd.choice(["first", "last", "none"])
+    if site == "first":
+        files[0].stmts.insert(0, apm.link(apm.num(base)))
+    elif site == "last":
+        files[1].stmts.append(apm.link(apm.num(base)))
+    return apm.Program(files), [f"{t}|link-{site}" for t in tags]
+
+
 def run_shard(spec):
     from vlib import apm, refcheck
     rnd = random.Random(spec["seed"] * 32452843 + spec["part"])
@@ -330,6 +363,13 @@ def run_shard(spec):
         res["sets"]["rel_shapes"].extend(tags)
         if i < 1:
             res["samples"].append({"kind": "rel", "text": refcheck.render_all(prog)["/c04/main.mac"].splitlines()[:14]})
+    for i in range(nrel // 4):
+        prog, tags = gen_shadow_program(rnd, rnd.choice(BASES))
+        case = {"kind": "inc", "prog": apm.to_json(prog)}
+        res["violations"].extend(run_case(case, cnt))
+        res["evaluations"] += 1
+        res["distinct"].extend(tags)
+        res["sets"]["rel_shapes"].extend(tags)
     for i in range(nrel // 3):
         base = rnd.choice(BASES)
         prog, tags = gen_include_program(rnd, base)
@@ -361,8 +401,7 @@ def run_case(case, cnt=None):
         verdict, msgs, o, texts = refcheck.run_prog_case(prog, os.getcwd(), c, wall=60)
         cnt["include_programs"] = cnt.get("include_programs", 0) + 1
         if verdict == "violation":
-            viol("relative operands / branches across an include: " + "; ".join(msgs) + " || main: " + " | ".join(texts["main.mac"].splitlines()) +
-                 " || inc: " + " | ".join(texts["inc.mac"].splitlines()))
+            viol("relative operands / branches across files: " + "; ".join(msgs) + " || " + " || ".join(f"{n}: " + " | ".join(t.splitlines()) for n, t in texts.items()))
         elif verdict == "unmodelled":
             viol(f"include program left the modelled fragment: {msgs}")
         elif verdict == "agree" and o.cls == "ok":
@@ -399,6 +438,11 @@ def run_case(case, cnt=None):
             cnt["branches_accepted_decoded"] = cnt.get("branches_accepted_decoded", 0) + c.get("insn_statements_decoded", 0)
         else:
             cnt["branches_rejected_confirmed"] = cnt.get("branches_rejected_confirmed", 0) + 1
+            # the same text once more in this process: a rejection does not wear off
+            o_again = asm.assemble(files, wall=60)
+            if o_again.cls not in ("fail", "stall"):
+                viol(f"{label}: rejected the first time, but the very same source assembled again in the same process gives {o_again.cls}")
+            cnt["rejections_repeated"] = cnt.get("rejections_repeated", 0) + 1
             errs = o.errors
             bad_ids = [e["id"] for e in errs if e["id"] not in ("branch-out-of-bounds", "odd-branch")]
             if bad_ids:
